@@ -39,10 +39,13 @@ type fakePeer struct {
 	in       *simStream
 	inGen    int
 	inOpened time.Duration
+	helloExpected bool
 	// fake's outbound stream (fake -> node); fake's endpoint
 	out *simStream
 
 	version int
+	everStalled bool
+	disturbed   bool // its connection or the node's outbound stream to it was ever torn down
 	recv    []wireObs
 	rbuf    []byte
 	outBytes []byte // every byte sent on the current outbound stream (framing model for C12)
@@ -70,6 +73,17 @@ func (h *simHost) fakeAccept(remote *simStream) {
 	fp.in = remote
 	fp.inGen++
 	fp.inOpened = fp.s.now()
+	// will the hello packet be non-empty (and therefore written)? The node's event loop builds it
+	// from its subscriptions and relays when it handles the new stream, later in this same step.
+	fp.helloExpected = false
+	if fp.node != nil && fp.node.ps != nil {
+		ps := fp.node.ps
+		fp.helloExpected = len(ps.mySubs)+len(ps.myRelays) > 0
+		if gs, ok := ps.rt.(*GossipSubRouter); ok && gs.feature(GossipSubFeatureExtensions, remote.proto) &&
+			(gs.extensions.myExtensions.TestExtension || gs.extensions.myExtensions.PartialMessages) {
+			fp.helloExpected = true
+		}
+	}
 	fp.rbuf = nil
 	gen := fp.inGen
 	remote.rd.sink = func(t time.Duration, b []byte) { fp.onBytes(gen, t, b) }
